@@ -280,21 +280,29 @@ def traces(ctx, n):
 
 
 def vector_selftest(ctx, r):
-    """spec -> impl binding: a corrupted expected value must be reported by the replay"""
+    """spec -> impl binding: a corrupted expected value must be reported by the replay.  Uses a vector whose
+    clean replay passes (if the implementation is wrong everywhere the violations are reported anyway)."""
+    tried = 0
     for rec in r.iter_emitted():
         if len(rec['centres']) >= 2 and len(rec['neigh'][0]) >= 2:
+            tried += 1
+            if tried > 40:
+                break
+            if S.check_vol(rec, 0) or S.check_rdms(tuple(rec['shape']), rec['centres'], rec['neigh'], 'euclidean', seed=1)[0]:
+                continue
             a = copy.deepcopy(rec)
             a['neigh'][0] = a['neigh'][0][:-1]
             b = copy.deepcopy(rec)
             b['centres'] = b['centres'][:-1]
             b['neigh'] = b['neigh'][:-1]
-            if not S.check_vol(a, 0) or not S.check_vol(b, 0) or S.check_vol(rec, 0):
+            ka, kb = S.check_vol(a, 0), S.check_vol(b, 0)
+            if not ka or not kb:
                 raise MachineryError('vector self-test: corrupted expectation not detected by the replay')
-            c, _ = S.check_rdms(tuple(rec['shape']), rec['centres'], rec['neigh'], 'euclidean', seed=1)
-            if c:
-                raise MachineryError(f'vector self-test: clean RDM replay reports {c[0][0]}')
-            ctx.extra['vector_selftest'] = 'dropped expected neighbour and dropped expected centre both reported'
+            ctx.extra['vector_selftest'] = f'dropped expected neighbour -> {ka[0][0]}; dropped expected centre -> {kb[0][0]}'
             return
+    if ctx.new_violations:
+        ctx.extra['vector_selftest'] = 'skipped: no vector with a clean replay (violations were reported)'
+        return
     raise MachineryError('vector self-test: no suitable vector')
 
 
